@@ -467,7 +467,10 @@ func (c *conn) Flush() error {
 	// ReadFrom only buffers the data, in LT mode we need to monitor the writable
 	// events if the outbound buffer could not be flushed out completely.
 	if !c.loop.engine.opts.EdgeTriggeredIO && !c.outboundBuffer.IsEmpty() {
-		return c.loop.poller.ModReadWrite(&c.pollAttachment, false)
+		if err := c.loop.poller.ModReadWrite(&c.pollAttachment, false); err != nil {
+			_ = c.loop.close(c, err)
+			return err
+		}
 	}
 	return nil
 }
